@@ -37,7 +37,9 @@ struct C07 : Harness {
                     } else if (*chance(50)) k2.set("rounds", *irange(5, 8)).set("mode", *irange(0, 1));
                     p.push_back(k2);
                 }
-                int nblk = *irange(0, 40);
+                // every count 0..40 is drawn often enough to be covered in each run; larger requests (up to 200 blocks)
+                // reach code that only looks at "big" requests
+                int nblk = *rc::gen::weightedOneOf<int>({{8, irange(0, 40)}, {1, irange(41, 200)}});
                 size_t n = (size_t)nblk * bs;
                 Op e = mkop(opn(kind, kind == PM ? "crypt" : (*chance(50) ? "enc" : "dec")));
                 e.set("s", 0).set("in", *gdata(n));
